@@ -1032,6 +1032,7 @@ func (cl *collector) inductive(x *ssa.Phi, depth int) {
 		f.addLE(term{"", l}, t, 0)
 	}
 	cl.g7PhiRoot(x, t, depth) // ip_g7.go: a web of phis and non-negative steps over one start value
+	cl.h1PhiBounds(x, t)      // ip_h1.go: interval fixpoint over the phis of the function (toggles, reflections)
 	// counter started from one value e0 and only stepped in one direction: bounded by e0
 	{
 		var start ssa.Value
